@@ -96,7 +96,7 @@ Definition begin_enum_list (id : str) := w (R "<ol" ++ idattr id ++ R ">" ++ NLs
 Definition begin_item_list (id : str) := w (R "<ul" ++ idattr id ++ R ">" ++ NLs).
 Definition begin_item := w (R "<li>").
 Definition go_up (s : st) : str :=
-  match html_escape (param "xhtml-go-up" s) with
+  match param "xhtml-go-up" s with
   | [] => let l := lang s in
           if str_eqb l (R "de") || str_eqb l (R "en") || str_eqb l (R "fr") then R "Index"
           else if str_eqb l (R "eo") then R "Indekso" else if str_eqb l (R "es") then [205] ++ R "ndice" else [8593]
@@ -310,7 +310,7 @@ Definition media_type (n : str) : option str :=
 Definition chap_entries (s : st) : list lox := filter (fun e => str_eqb (lx_macro e) (R "Pt") || str_eqb (lx_macro e) (R "Ch")) (lox_toc s).
 Definition content_opf (title : str) (s : st) : str * st :=
   let e3 := epub3 s in
-  let subj := html_escape (param "epub-subject" s) in
+  let subj := param "epub-subject" s in
   let head :=
     R "<?xml version=""1.0"" encoding=""utf-8""?>" ++ NLs ++
     R "<package xmlns=""http://www.idpf.org/2007/opf"" version=""" ++ (if e3 then R "3.0" else R "2.0") ++ R """ unique-identifier=""epub-id-1"">" ++ NLs ++
